@@ -244,7 +244,7 @@ func faultRun(c copyeng.Case, p int, fk string, kinds []string) {
 	ctx, cancel := context.WithTimeout(context.Background(), 60*time.Second)
 	defer cancel()
 	var plan *modelreg.Plan
-	r := copyeng.Run(c, copyeng.RunOpts{Ctx: ctx, RetryLimit: 2, Prepare: func(r *copyeng.Result) {
+	r := copyeng.Run(c, copyeng.RunOpts{Ctx: ctx, RetryLimit: 2, NoClose: true, Prepare: func(r *copyeng.Result) {
 		plan = &modelreg.Plan{Faults: []*modelreg.Fault{mkFault(fk, p, cancel)}}
 		plan.Install(r.W.Hosts...)
 		labels.Store(r, fmt.Sprintf("%s@%d", fk, p))
@@ -267,7 +267,7 @@ func doubleFault(c copyeng.Case, p1 int, f1 string, p2 int, f2 string) {
 	ctx, cancel := context.WithTimeout(context.Background(), 60*time.Second)
 	defer cancel()
 	var plan *modelreg.Plan
-	r := copyeng.Run(c, copyeng.RunOpts{Ctx: ctx, RetryLimit: 2, Prepare: func(r *copyeng.Result) {
+	r := copyeng.Run(c, copyeng.RunOpts{Ctx: ctx, RetryLimit: 2, NoClose: true, Prepare: func(r *copyeng.Result) {
 		plan = &modelreg.Plan{Faults: []*modelreg.Fault{mkFault(f1, p1, cancel), mkFault(f2, p2, cancel)}}
 		plan.Install(r.W.Hosts...)
 	}})
